@@ -1,10 +1,38 @@
 (* C09 — Executing an accepted query never panics.
    Every unwrap/expect/index/assert!/unreachable! of execution.rs, filtering.rs::apply_filter and the
-   DataContext helpers is an explicit `Panic` outcome of Exec.v.  Full statement (the whole-interpreter
-   theorem is staged; the run-time oracle runs catch_unwind(interpret_ir) on every generated world):
+   DataContext helpers is an explicit `Panic` outcome of Exec.v.  Full statement:
      forall re g args q, wf_query q -> typed_query S q -> args_ok q args -> conforms S g -> ~ Known q args ->
-       exists rows, interpret re g args q = Ok rows                                                   *)
-From TF Require Import Exec Sem Sim SimRec SimComp ExecNoPanic Run.
+       exists rows, interpret re g args q = Ok rows
+
+   PROVED HERE (whole interpreter, all queries with any nesting of plain / @optional / @recurse edges,
+   @fold, tags, imported tags, fold-count filters and outputs; all graphs with type-independent
+   neighbours; all arguments and regex oracles):
+     C09_interpreter_panics_only_in_filter_operators
+       np_ok args q = true -> interpret re g args q = Panic site -> operator_site site = true
+   i.e. the ONLY way a run can panic is a filter operator function (Ops.v: equals, the four comparisons,
+   contains / one_of, the string operators, the regex matchers; PartialEq on non-finite floats below
+   them) or the regex compilation of a filter argument evaluated outside its domain (operator_site lists
+   exactly these sites; even the unreachable!() arms and regex expect()s of the two dispatch tables are
+   proved unreachable) — the classes C07 characterises exactly (K-list-ordering,
+   K-regex-invalid, ...).  The engine's own bookkeeping never panics: vertices[..] lookups and
+   record_vertex, values.pop(), the suspended-vertices stack and the piggy-backed contexts of @recurse,
+   the folded_contexts / folded_values / imported_tags maps with all their expect()s and assert!s, the
+   fold-count limit computation, query_arguments[..], component.vertices[..] / outputs[..] and both
+   assert!s of construct_outputs.
+   np_ok (NoPanic.v) is a decidable STATIC check of the lowered query and its arguments (no typing of
+   values, no condition on the data): every referenced vid is a vertex of its component; edges and folds
+   start at an already recorded vertex and edges lead to a new one; a @recurse edge has depth >= 1 and
+   starts at the current vertex or an ancestor of it (depth-first numbering); a tag operand is the
+   filtered vertex itself, an earlier vertex / completed fold of the same component, or imported by an
+   enclosing fold; imported tags are defined earlier by the parent component and not already imported
+   further out; unary operators have no operand, binary ones have one, variables are bound; count-filter
+   arguments have integer shape; fold eids and the (eid, output name) keys are distinct; outputs name
+   recorded vertices; output names are globally distinct.  It holds (by vm_compute) on every world the
+   harness generated from the real frontend that was probed.
+   NOT proved: that the frontend's output always satisfies np_ok (C10/C11/C12 are the frontend
+   properties; np_ok is evaluated per query), and typing conditions under which the operators
+   themselves stay in their domain (C07). *)
+From TF Require Import Exec Sem Sim SimRec SimComp ExecNoPanic Run WfIR NoPanic NoPanicOps NoPanicEdges NoPanicFold NoPanicProofs C01.
 Local Open Scope string_scope.
 
 (* The @recurse machinery (suspended-vertices stack, piggy-backed contexts, implicit-coercion gate):
@@ -44,3 +72,185 @@ Example C09_recursion_hypotheses_satisfiable :
   count_arg_ok [("n", U64 18446744073709551615%Z)] (mkPF GreaterThan (Some (AVar "n" (mkTy "Int" 1%N)))) = true.
 Proof. cbn. repeat split; try reflexivity. discriminate. Qed.
 Print Assumptions C09_recursion_hypotheses_satisfiable.
+
+(* ================= the whole interpreter ================= *)
+
+(* (A) every panic of the interpreter is a panic of a filter operator / of a filter's regex *)
+Theorem C09_interpreter_panics_only_in_filter_operators :
+  forall re g args, ty_indep g ->
+  forall q site, np_ok args q = true -> interpret re g args q = Panic site -> operator_site site = true.
+Proof. exact interpret_panics_only_in_operators. Qed.
+Print Assumptions C09_interpreter_panics_only_in_filter_operators.
+
+Theorem C09_interpreter_rows_or_operator_panic :
+  forall re g args, ty_indep g ->
+  forall q, np_ok args q = true ->
+    (exists rows, interpret re g args q = Ok rows) \/
+    (exists site, interpret re g args q = Panic site /\ operator_site site = true).
+Proof. exact interpret_rows_or_operator_panic. Qed.
+Print Assumptions C09_interpreter_rows_or_operator_panic.
+
+(* equivalent formulation: if no filter operator panics, the run returns rows *)
+Theorem C09_interpreter_returns_rows_unless_an_operator_panics :
+  forall re g args, ty_indep g ->
+  forall q, np_ok args q = true ->
+    (forall site, interpret re g args q = Panic site -> operator_site site = false) ->
+    exists rows, interpret re g args q = Ok rows.
+Proof. exact interpret_ok_unless_operator_panics. Qed.
+Print Assumptions C09_interpreter_returns_rows_unless_an_operator_panics.
+
+(* from the Rust-shaped IR: the edge/fold merge loop of compute_component (its unreachable!() and its
+   two visited-vid assert!s, Lower.v) does not panic on an IR with the structural invariants of C11 *)
+Theorem C09_engine_from_raw_ir :
+  forall re g args rq, ty_indep g -> wf_ir rq = true ->
+  exists q, lower_query rq = Ok q /\
+            (np_ok args q = true ->
+             forall site, interpret re g args q = Panic site -> operator_site site = true).
+Proof. exact engine_panics_only_in_operators. Qed.
+Print Assumptions C09_engine_from_raw_ir.
+
+(* ================= the stages, each under its invariant ================= *)
+
+(* one component, any nesting: contexts with nothing recorded in, contexts satisfying the final invariant out *)
+Theorem C09_component_panics_only_in_filter_operators :
+  forall re g args, ty_indep g ->
+  forall c impk cs, np_comp args impk c = true -> Forall (start_inv impk) cs ->
+    safe (Forall (cinv impk (comp_final c))) (compute_component re g args c cs).
+Proof. exact compute_component_safe. Qed.
+Print Assumptions C09_component_panics_only_in_filter_operators.
+
+(* a plain / @optional / @recurse edge followed by the entry into its destination vertex *)
+Theorem C09_edge_stage_panics_only_in_filter_operators :
+  forall re g args, ty_indep g ->
+  forall vs ss impk st e cs, edge_np args vs ss impk st e = true -> Forall (cinv impk st) cs ->
+    safe (Forall (cinv impk (st_edge st e))) (expand_edge re g args vs ss e cs).
+Proof. exact expand_edge_safe. Qed.
+Print Assumptions C09_edge_stage_panics_only_in_filter_operators.
+
+(* compute_fold, given the same statement for the fold's sub-component *)
+Theorem C09_fold_stage_panics_only_in_filter_operators :
+  forall re g args vs ss impk st h sub cs,
+    (forall impk' cs', np_comp args impk' sub = true -> Forall (start_inv impk') cs' ->
+                       safe (Forall (cinv impk' (comp_final sub))) (compute_component re g args sub cs')) ->
+    fold_np args vs ss impk st h sub = true -> np_comp args (impk ++ fo_imported h) sub = true ->
+    Forall (cinv impk st) cs ->
+    safe (Forall (cinv impk (st_fold st h sub)))
+         (fold_step re g args vs ss h sub (compute_component re g args sub) cs).
+Proof. exact fold_step_safe. Qed.
+Print Assumptions C09_fold_stage_panics_only_in_filter_operators.
+
+(* the fold-output bookkeeping (folded_values) never panics at all *)
+Theorem C09_fold_outputs_never_panic :
+  forall g impk impk' st h sub c fe,
+    NoDup (FoldOut.fold_keys h sub) ->
+    (forall k, In k (FoldOut.fold_keys h sub) -> ~ In k (s_fks st)) ->
+    outs_np (c_vertices sub) (comp_final sub) (c_outputs sub) = true ->
+    cinv impk (st_mid st h) c ->
+    lookup_N (fo_eid h) (folded_contexts c) = Some fe ->
+    match fe with Some els => Forall (cinv impk' (comp_final sub)) els | None => True end ->
+    exists z, fold_outputs_one g h sub c = Ok z /\ cinv impk (st_fold st h sub) z.
+Proof. exact fold_outputs_one_ok. Qed.
+Print Assumptions C09_fold_outputs_never_panic.
+
+(* construct_outputs never panics *)
+Theorem C09_construct_outputs_never_panics :
+  forall g c cx,
+    outs_np (c_vertices c) (comp_final c) (c_outputs c) = true -> NoDup (all_output_names c) ->
+    cinv [] (comp_final c) cx ->
+    exists row, construct_output_one g c (sort_names (map fst (c_outputs c))) cx = Ok row.
+Proof. exact construct_output_ok. Qed.
+Print Assumptions C09_construct_outputs_never_panics.
+
+(* the dispatch tables: for a binary operation whose static regex argument passed the stage-building
+   pre-check, every panic is a panic of an operator function, whatever the operands (the tables' own
+   unreachable!() arms and regex expect()s cannot fire) *)
+Theorem C09_dispatch_tables_panic_only_at_operator_sites :
+  forall re op l r ro act, opk_unary op = false ->
+    (precheck_static re op r = Ok tt -> safe (fun _ => True) (apply_static re op l r act)) /\
+    safe (fun _ => True) (apply_tagged re op l ro act).
+Proof. intros re op l r ro act Hu. split; [intros Hp; now apply apply_static_safe|now apply apply_tagged_safe]. Qed.
+Print Assumptions C09_dispatch_tables_panic_only_at_operator_sites.
+
+(* ================= non-vacuity ================= *)
+
+(* the theorem is not trivial: none of the bookkeeping panic sites of Exec.v / Lower.v is an operator site *)
+Definition bookkeeping_sites : list string :=
+  [ "filtering.rs: no value present"; "filtering.rs: no argument present for filter"; "static right value";
+    "filtering.rs:459 regex argument was not a string"; "filtering.rs:460 regex argument was not a valid regex";
+    "filtering.rs:470 unreachable"; "filtering.rs:534 unreachable";
+    "mod.rs:record_vertex insert_or_error"; "context.vertices[vid]: key not found";
+    "mod.rs:ensure_unsuspended pop().unwrap()"; "query_arguments[name]: key not found";
+    "execution.rs:usize_from_field_value non-integer"; "execution.rs: for field value to be coercible to usize";
+    "execution.rs:get_max_fold_count_limit unreachable"; "ctx.folded_contexts[fold_eid]: key not found";
+    "ctx.imported_tags[field_ref]: key not found"; "component.vertices[vid]: key not found";
+    "execution.rs:compute_fold expect(not Some)"; "execution.rs:compute_fold expect(not a Vec)";
+    "execution.rs:compute_fold expect(key not present)"; "execution.rs:compute_fold expect(value was None)";
+    "fold.component.outputs[name]"; "ctx.folded_contexts[fold_eid]";
+    "execution.rs: this fold output was already computed";
+    "execution.rs:compute_fold assert_eq!(disjoint folded_values)";
+    "execution.rs:compute_fold folded_contexts.insert_or_error"; "root_component.outputs[name]";
+    "execution.rs:construct_outputs assert!(values.len() == output_names.len())";
+    "execution.rs:construct_outputs assert!(existing.is_none())";
+    "execution.rs:compute_component unreachable (fold.eid == edge.eid)";
+    "execution.rs:compute_component assert!(!from_vid_unvisited)";
+    "execution.rs:compute_component assert!(to_vid_unvisited)" ].
+Example C09_bookkeeping_sites_are_not_operator_sites :
+  forallb (fun s => negb (operator_site s)) bookkeeping_sites = true.
+Proof. vm_compute. reflexivity. Qed.
+Print Assumptions C09_bookkeeping_sites_are_not_operator_sites.
+
+(* np_ok holds on a query with nested @fold (one with a count filter against a tag), an @optional edge,
+   a @recurse edge of depth 2, variables and outputs at three nesting levels (C01's agreement witness,
+   produced by the real frontend), and its run returns rows *)
+Example C09_np_ok_nonvacuous :
+  match lower_query aw_rq with
+  | Ok q => np_ok aw_args q = true /\
+            match interpret aw_re (graph_of_dataset aw_d) aw_args q with
+            | Ok rows => Nat.ltb 0 (List.length rows) = true
+            | Panic _ => False
+            end
+  | Panic _ => False
+  end.
+Proof. vm_compute. split; reflexivity. Qed.
+Print Assumptions C09_np_ok_nonvacuous.
+
+(* ... on the fold-free witness of C01 (tags across @optional edges, @recurse, coercion) and on the
+   truncating fold-count witness *)
+Example C09_np_ok_nonvacuous_more :
+  (match lower_query (snd (fst ff_world)) with Ok q => np_ok (snd ff_world) q = true | Panic _ => False end) /\
+  (match lower_query tr_rq with Ok q => np_ok tr_args q = true | Panic _ => False end).
+Proof. vm_compute. split; reflexivity. Qed.
+Print Assumptions C09_np_ok_nonvacuous_more.
+
+(* the other branch is real: an accepted-shape query whose filter orders lists passes np_ok and its run
+   panics inside the operator (known class K-list-ordering) *)
+Definition lo_rq : raw_query :=
+  mkRQ "Item" []
+       (RComp 1%N [mkV 1%N "Item" None [mkVF LessThan "tags" (mkTy "String" 6%N) (Some (AVar "v" (mkTy "String" 6%N)))]]
+              [] [] [("o", mkCF 1%N "id" (mkTy "Int" 1%N))])
+       [("v", mkTy "String" 6%N)].
+Example C09_operator_panic_branch_is_inhabited :
+  match lower_query lo_rq with
+  | Ok q => np_ok [("v", List [Str "a"])] q = true /\
+            interpret aw_re (graph_of_dataset aw_d) [("v", List [Str "a"])] q = Panic "filtering.rs:126 unreachable"
+  | Panic _ => False
+  end.
+Proof. vm_compute. split; reflexivity. Qed.
+Print Assumptions C09_operator_panic_branch_is_inhabited.
+
+(* np_ok is not vacuously true either: a tag operand on a vertex that is not recorded yet is rejected *)
+Definition bad_rq : raw_query :=
+  mkRQ "Item" []
+       (RComp 1%N [mkV 1%N "Item" None [mkVF Equals "id" (mkTy "Int" 1%N)
+                                            (Some (ATag (FRContext (mkCF 2%N "id" (mkTy "Int" 1%N)))))];
+                   mkV 2%N "Item" None []]
+              [mkE 1%N 1%N 2%N "next" [] false None] [] [("o", mkCF 1%N "id" (mkTy "Int" 1%N))])
+       [].
+Example C09_np_ok_rejects_forward_tag :
+  match lower_query bad_rq with
+  | Ok q => np_ok [] q = false /\
+            interpret aw_re (graph_of_dataset aw_d) [] q = Panic "context.vertices[vid]: key not found"
+  | Panic _ => False
+  end.
+Proof. vm_compute. split; reflexivity. Qed.
+Print Assumptions C09_np_ok_rejects_forward_tag.
